@@ -257,7 +257,7 @@ func ParamsBound(ct *Contract) int64 {
 // from the template plus the MinParams gate is a separate (structural +
 // lemma) obligation. For registrations whose name starts with rolePrefix the
 // session must be a services link: proved here from the way the key is built.
-func (e *Engine) HandlerDynHook(regs []Registration, template, rolePrefix string) DynHook {
+func (e *Engine) HandlerDynHook(regs []Registration, template, dispatch, rolePrefix string) DynHook {
 	return func(f *Frame, instr ssa.Instruction, c *ssa.CallCommon, fv *V, args []*V, st *State) ([]*V, bool) {
 		u := f.u
 		tpl := e.Specs.Contracts[template]
@@ -278,20 +278,25 @@ func (e *Engine) HandlerDynHook(regs []Registration, template, rolePrefix string
 		if key == nil {
 			f.fail("dynamic handler call: cannot find the table lookup")
 		}
-		// role obligation: reaching a services handler implies s.Server
+		// role obligations: what the gate in ProcessMessage guarantees for the handler registered
+		// under each name (services handlers only for services links; client handlers never for
+		// services links, and only after registration unless the command is one of the
+		// pre-registration commands)
 		sess := args[1]
-		srv := f.load(st, &V{Typ: types.NewPointer(types.Typ[types.Bool]), LV: &LVal{Kind: "field", Base: sess.T, Key: "F:ircserver.Session.Server", Typ: types.Typ[types.Bool]}})
+		ldb := func(field string) T {
+			return f.load(st, &V{Typ: types.NewPointer(types.Typ[types.Bool]), LV: &LVal{Kind: "field", Base: sess.T, Key: "F:ircserver.Session." + field, Typ: types.Typ[types.Bool]}}).T
+		}
+		srv, logged := ldb("Server"), ldb("loggedIn")
 		var conds []T
 		for _, r := range regs {
-			if strings.HasPrefix(r.Name, rolePrefix) {
-				conds = append(conds, implies(eq(key.T, u.strLit(r.Name)), srv.T))
-			}
+			conds = append(conds, implies(eq(key.T, u.strLit(r.Name)), e.roleFact(r.Name, dispatch, rolePrefix, srv, logged)))
 		}
-		u.oblige(st, "assert", f.anchor+"dispatch/services handlers only for services links", and(conds...), "a command registered under "+rolePrefix+"* is only dispatched when s.Server")
-		u.assume(st, implies(srv.T, tTrue))
+		u.oblige(st, "assert", f.anchor+"dispatch/role and registration gate", and(conds...), "services handlers run only for services links, client handlers only for registered non-services sessions (pre-registration commands excepted)")
 		tplCopy := *tpl
-		env := []string{"i", "s", "reply", "msg"}
-		_ = env
+		if d := e.Specs.Contracts[dispatch]; d != nil {
+			// facts ProcessMessage guarantees at the dispatch beyond the template
+			tplCopy.Requires = append(append([]Clause{}, tpl.Requires...), d.Requires...)
+		}
 		res := f.applyContractNamed(instr, &tplCopy, c.Signature(), template, args, []string{"i", "s", "reply", "msg"}, st)
 		return res, true
 	}
@@ -325,4 +330,97 @@ func (f *Frame) applyContractNamed(instr ssa.Instruction, ct *Contract, sig *typ
 		u.assume(st, ctx.evalBool(e.E))
 	}
 	return res
+}
+
+// GateLemma builds the unit that proves: template requires + dispatch facts +
+// MinParams gate  ==>  every requires clause of the handler (except those
+// labelled conforming*, which are assumptions about services input).
+func (e *Engine) GateLemma(h *ssa.Function, minParams int64, names []string, template, dispatch, rolePrefix string) (u *Unit, err error) {
+	name := ShortName(h)
+	u = newUnit(e, "ircserver.dispatch-lemma/"+name)
+	defer func() {
+		if r := recover(); r != nil {
+			if ue, ok := r.(unsupportedErr); ok {
+				err = fmt.Errorf("gate lemma %s: %s", name, ue.Error())
+				return
+			}
+			panic(r)
+		}
+	}()
+	st := &State{reach: tTrue, heap: map[string]T{}}
+	st.alloc = u.fresh("alloc0", SInt)
+	u.emitFact(app(SBool, ">=", st.alloc, intLit(1000)))
+	env := map[string]*V{}
+	for _, p := range h.Params {
+		env[p.Name()] = u.freshVal(st, p.Type(), "p!"+p.Name())
+	}
+	ctx := &SpecCtx{u: u, st: st, old: st, env: env, pkg: pkgOf(h)}
+	for _, tn := range []string{template, dispatch} {
+		if ct := e.Specs.Contracts[tn]; ct != nil {
+			for _, r := range ct.Requires {
+				u.assume(st, ctx.evalBool(r.E))
+			}
+		}
+	}
+	if pk := pkgOf(h); pk != nil {
+		for k, ax := range e.Specs.Axioms {
+			if e.Specs.AxiomPkg[k] == pk.Name() {
+				u.assume(st, ctx.evalBool(ax.E))
+			}
+		}
+	}
+	src := fmt.Sprintf("len(msg.Params) >= %d", minParams)
+	ex, _ := ParseExpr(src)
+	u.assume(st, ctx.evalBool(ex))
+	{
+		// the handler may be registered under several names: any of their role facts may be the one that holds
+		sv := env["s"]
+		fr := &Frame{u: u}
+		ldb := func(field string) T {
+			return fr.load(st, &V{Typ: types.NewPointer(types.Typ[types.Bool]), LV: &LVal{Kind: "field", Base: sv.T, Key: "F:ircserver.Session." + field, Typ: types.Typ[types.Bool]}}).T
+		}
+		srv, logged := ldb("Server"), ldb("loggedIn")
+		var alts []T
+		for _, n := range names {
+			alts = append(alts, e.roleFact(n, dispatch, rolePrefix, srv, logged))
+		}
+		u.assume(st, or(alts...))
+	}
+	u.opts = UnitOpts{Post: true}
+	ct := e.Specs.Contracts[name]
+	if ct != nil {
+		for i, r := range ct.Requires {
+			label := r.Label
+			if label == "" {
+				label = fmt.Sprintf("%d", i)
+			}
+			if strings.HasPrefix(label, "conforming") {
+				u.note("services input is protocol-conforming: " + name + " assumes " + r.Src)
+				continue
+			}
+			u.oblige(st, "gate", "requires "+label, ctx.evalBool(r.E), "dispatch establishes the precondition of "+name+": "+r.Src)
+		}
+	}
+	return u, nil
+}
+
+func (e *Engine) preregSet(dispatch string) map[string]bool {
+	out := map[string]bool{}
+	if d := e.Specs.Contracts[dispatch]; d != nil {
+		for _, n := range strings.Fields(d.Opts["prereg"]) {
+			out[n] = true
+		}
+	}
+	return out
+}
+
+// roleFact is what holds at the dispatch for a handler registered under name.
+func (e *Engine) roleFact(name, dispatch, rolePrefix string, srv, logged T) T {
+	if strings.HasPrefix(name, rolePrefix) {
+		return srv
+	}
+	if e.preregSet(dispatch)[name] {
+		return not(srv)
+	}
+	return and(not(srv), logged)
 }
